@@ -56,6 +56,18 @@ def main():
     except ValueError:
         seed = 0
 
+    # watchdog: a run that exceeds its wall-clock budget is inconclusive (exit 2), never a violation
+    import threading
+    budget = float(os.environ.get('VERIF_BUDGET_S') or (900 if args.tier == 'quick' else 5400))
+
+    def _expired():
+        sys.stdout.write(f'HARNESS-ERROR: {prop} {args.tier}: wall-clock budget of {budget:.0f}s exhausted (inconclusive, not a violation)\n')
+        sys.stdout.flush()
+        os._exit(2)
+    wd = threading.Timer(budget, _expired)
+    wd.daemon = True
+    wd.start()
+
     from vlib import core
     ctx = core.Ctx(prop, args.tier, seed)
     try:
